@@ -30,6 +30,8 @@ var universe = []RS{
 	{ResourceType: "other", Resource: "x", Action: "y"},
 	{ResourceType: "foo"},
 	{ResourceType: "repository", Resource: "", Action: "pull"},
+	// an opaque one-word scope with more colons than the type:resource:action syntax has
+	{ResourceType: "urn:a:b:c"},
 	{ResourceType: "registry", Resource: "catalog", Action: "pull"},
 	// thorough only:
 	{ResourceType: "repository", Resource: "b", Action: "push"},
@@ -270,7 +272,7 @@ func main() {
 		"large universe: random sets over arbitrary field bytes, pairs drawn from a shared pool. distinct_nontrivial = distinct (|S| class, |T| class, relation between S and T, construction) shapes + distinct member-class combinations; trivial = both sets empty.")
 	run.Assume("round-trip (print then parse) is asserted only where every member has non-empty fields free of whitespace, ':' and ',' or is an opaque one-word scope")
 
-	n := run.N(10, 13)
+	n := run.N(11, 13)
 	U := universe[:n]
 	probes := append(append([]RS{}, universe...), outside...)
 	nsub := 1 << n
